@@ -1,5 +1,6 @@
 """C04 - hash_based and kdtree return the same exact neighbour set as the default search."""
 import math
+import itertools
 from mc.core import Space, HarnessError
 from mc import enum as E
 from mc.refmodel import neighbors_within, ref_ball
@@ -11,7 +12,7 @@ RULE = ("every case is executed on hash_based / kdtree and on nearest_neighbor; 
         "reference {(i,j,lev)<=k} and the engines' sets with each other (differential); non-trivial = expected set non-empty")
 ASSUMPTIONS = ["hash_based is exponential in max_edits: k=2 up to U(.,4)/(thorough U(.,5) one alphabet), k=3 only on U(.,2)",
                "kdtree radius-boundary family uses homopolymer blocks so that the composition vectors differ by exactly sqrt(2)*k"]
-REQUIRED_CLASSES = {"all": ["bin-straddling-alphabet", "radius-boundary-pair", "duplicate-at-distance-0", "has-empty-string"]}
+REQUIRED_CLASSES = {"all": ["bin-straddling-alphabet", "radius-boundary-pair", "duplicate-at-distance-0", "has-empty-string", "size-boundary-family", "equal-length-pair-needs-indels"]}
 MIN_OUTCOMES = 10
 
 ALPHAS = ("ACD", "DEF", "WYA")   # straddle kdtree composition bins at compression 1, 2, 3 (aminoacids = ACDEFGHIKLMNPQRSTVWY)
@@ -40,6 +41,20 @@ def spaces(tier):
         for seqs in E.lists(E.universe("AC", 2), 3 if q else 4):
             yield ("list", seqs)
 
+    def gen_size():
+        for N in (255, 256, 257, 1023, 1024, 1025, 2049) + (() if q else (4097, 65560)):
+            yield ("sizefam", "kdtree", N, 1)
+        yield ("sizefam", "kdtree", 1025, 2)
+        for N in (257, 1025):
+            yield ("sizefam", "hash_based", N, 1)
+
+    def gen_eqlen():
+        # every ordered pair of equal-length strings as a 2-element collection: all lengths equal, so a distance-2 pair related
+        # by one insertion + one deletion is only reachable through strings of other lengths
+        U4 = ["".join(t) for t in itertools.product("ACD", repeat=4)]
+        for a in U4:
+            yield ("eqlen", a)
+
     def gen_family():
         for si in range(len(CDR3_SEEDS)):
             yield ("family", "kdtree", si, 1)
@@ -49,6 +64,8 @@ def spaces(tier):
     return [
         Space("kdtree-universes", gen_kd, "U(alphabet,5|7) for alphabets %s, k in 1..5, plus the radius-boundary family x^k.C vs y^k.C, k=1..12" % (ALPHAS,), per_case=True),
         Space("hash_based-universes", gen_hash, "U(.,5|6) k=1; U(.,3|4) k=2; U(.,2) k=3", per_case=True),
+        Space("size-boundary-family", gen_size, "collections of 255..2049 (thorough: 4097, 65560) strings with a clonal family at the positions next to 0, 256, 1024, 65536 and the end; kdtree (k=1,2) and hash_based (k=1)", per_case=True),
+        Space("equal-length-pairs", gen_eqlen, "every ordered pair of 4-letter strings over ACD as a 2-element collection (one case = one first string against all 81) on hash_based and kdtree, k in 1..2"),
         Space("all-lists-three-engines", gen_lists, "Lists(U(AC,2),3|4) x k in 1..2 on hash_based, kdtree, nearest_neighbor (k=3: kdtree only)"),
         Space("cdr3-edit-ball-families", gen_family, "complete 20-letter one-edit ball around %d CDR3 seeds: kdtree k in 1..2, hash_based k=1" % len(CDR3_SEEDS), per_case=True),
     ]
@@ -106,6 +123,21 @@ def check_case(case, acc):
                 outs[eng] = digest(compare(acc, case, eng, seqs, k, expected, True))
             if len(set(outs.values())) != 1 and not acc.fails:
                 acc.fail("engines-disagree", ("list", seqs), "one set", outs)
+    elif kind == "sizefam":
+        _, eng, N, k = case
+        seqs, pos = E.size_family(N)
+        acc.cls("size-boundary-family")
+        compare(acc, case, eng, seqs, k, neighbors_within(seqs, k), False)
+    elif kind == "eqlen":
+        a = case[1]
+        for t in itertools.product("ACD", repeat=4):
+            b = "".join(t)
+            for k in (1, 2):
+                exp = neighbors_within([a, b], k)
+                if k == 2 and exp and sum(x != y for x, y in zip(a, b)) > 2:
+                    acc.cls("equal-length-pair-needs-indels")
+                for eng in ("hash_based", "kdtree"):
+                    compare(acc, ("one", eng, (a, b), k), eng, (a, b), k, exp, True)
     elif kind == "one":
         _, eng, seqs, k = case
         compare(acc, case, eng, seqs, k, neighbors_within(list(seqs), k), True)
